@@ -30,7 +30,7 @@ def validate(pid, k):
     """phase 1, in the agent's own worktree"""
     wt = PREFIX + pid
     patch, demo = "%s/out/patch%d.diff" % (wt, k), "%s/out/demo%d.rs" % (wt, k)
-    meta = {"property": pid, "variant": k + OFFSET, "round": {2: 2, 5: 3, 7: 4, 9: 5}.get(OFFSET, 0), "ran": []}
+    meta = {"property": pid, "variant": k + OFFSET, "round": {2: 2, 5: 3, 7: 4, 9: 5, 11: 6}.get(OFFSET, 0), "ran": []}
     env = "CARGO_TARGET_DIR=%s/target CARGO_NET_OFFLINE=true" % wt
     feat = " --features utils" if pid == "C18" else ""
     sh("git checkout -- . ; rm -f tests/seeddemo.rs", cwd=wt)
@@ -99,7 +99,7 @@ def main():
         elif args[0] == "--round":
             # round 2: /tmp/m2_<Cxx>, variants 3-5; round 3: /tmp/m3_<Cxx>, variants 6-7; round 4: /tmp/m4_<Cxx>, variants 8-9
             global PREFIX, OFFSET
-            PREFIX, OFFSET = {"2": ("/tmp/m2_", 2), "3": ("/tmp/m3_", 5), "4": ("/tmp/m4_", 7), "5": ("/tmp/m5_", 9)}[args[1]]; args = args[2:]
+            PREFIX, OFFSET = {"2": ("/tmp/m2_", 2), "3": ("/tmp/m3_", 5), "4": ("/tmp/m4_", 7), "5": ("/tmp/m5_", 9), "6": ("/tmp/m6_", 11)}[args[1]]; args = args[2:]
         elif args[0] == "--recheck":
             recheck = True; args = args[1:]
         elif args[0] == "--all-seeded":
